@@ -476,7 +476,7 @@ func (x *Exec) specEnv(cur, old State, vars map[string]SpecVar) *SpecEnv {
 		x.comp(cur, name)
 		x.comp(old, name)
 	}
-	return &SpecEnv{Vars: vars, Cur: cur, Old: old, Funcs: x.E.Funcs, CompSorts: x.E.CompSorts}
+	return &SpecEnv{Vars: vars, Cur: cur, Old: old, Funcs: x.E.Funcs, CompSorts: x.E.CompSorts, Epoch: x.E.Epoch, EntryAlloc: x.comp(x.Entry, "alloc")}
 }
 
 func (x *Exec) fill(st State) State {
@@ -669,6 +669,42 @@ func (x *Exec) cutLoop(fr *Frame, li *loopInfo, bc Term, st State) State {
 		}
 		nst[c] = x.C.Fresh(c+"_lp", sort)
 	}
+	// locals of this frame that the loop may write (any non-load use of their address inside the loop)
+	{
+		touched := map[string]bool{}
+		for _, b := range fr.fn.Blocks {
+			if !li.blocks[b] {
+				continue
+			}
+			for _, ins := range b.Instrs {
+				if u, ok := ins.(*ssa.UnOp); ok && u.Op == token.MUL {
+					continue
+				}
+				if _, ok := ins.(*ssa.DebugRef); ok {
+					continue
+				}
+				var ops []*ssa.Value
+				ops = ins.Operands(ops)
+				for _, op := range ops {
+					if op == nil || *op == nil {
+						continue
+					}
+					if al, ok := (*op).(*ssa.Alloc); ok {
+						if v, ok := fr.vals[al]; ok && v.Kind == VAddr && v.A.Kind == ALocal {
+							touched[v.A.Comp] = true
+						}
+					}
+				}
+			}
+		}
+		for _, name := range sortedKeys(x.Locals) {
+			for base := range touched {
+				if name == base || strings.HasPrefix(name, base+".") {
+					nst[name] = x.C.Fresh(sanitize(name)+"_lp", x.Locals[name])
+				}
+			}
+		}
+	}
 	li.auto = nil
 	if len(invs) == 0 {
 		a0 := x.comp(fr.entrySt, "alloc")
@@ -711,13 +747,20 @@ func (x *Exec) cutLoop(fr *Frame, li *loopInfo, bc Term, st State) State {
 				if cst, ok := phi.Edges[i].(*ssa.Const); ok && cst.Value != nil {
 					cv := x.constValue(cst)
 					if cv.Kind == VTerm && cv.T.Sort == SInt {
-						for _, op := range []string{">=", "<="} {
-							name := fmt.Sprintf("auto:%s:loop%d:%s%s%s", fnName, li.ordinal, sanitize(phi.Comment+phi.Name()), map[string]string{">=": "ge", "<=": "le"}[op], sanitize(cv.T.S))
+						type cand struct {
+							op  string
+							c   Term
+							tag string
+						}
+						cands := []cand{{">=", cv.T, "ge" + sanitize(cv.T.S)}, {"<=", cv.T, "le" + sanitize(cv.T.S)},
+							{"<=", T(SInt, "4611686018427387904"), "nooverflow"}, {">=", T(SInt, "(- 4611686018427387904)"), "nounderflow"}}
+						for _, cd := range cands {
+							name := fmt.Sprintf("auto:%s:loop%d:%s:%s", fnName, li.ordinal, sanitize(phi.Comment+phi.Name()), cd.tag)
 							if x.autoExcl[name] {
 								continue
 							}
-							li.auto = append(li.auto, autoCand{name: name, phi: phi, op: op, c: cv.T})
-							x.C.Assume(bc, T(SBool, app(op, fv.T.S, cv.T.S)))
+							li.auto = append(li.auto, autoCand{name: name, phi: phi, op: cd.op, c: cd.c})
+							x.C.Assume(bc, T(SBool, app(cd.op, fv.T.S, cd.c.S)))
 						}
 					}
 				}
@@ -726,6 +769,7 @@ func (x *Exec) cutLoop(fr *Frame, li *loopInfo, bc Term, st State) State {
 		}
 		fr.vals[phi] = fv
 	}
+	x.epochReset(nst)
 	// 3. assume invariants
 	if len(invs) > 0 {
 		vars := fr.loopVars(li, nst, func(p *ssa.Phi) Value { return fr.vals[p] })
